@@ -47,6 +47,8 @@ VARIANT = dict(name='full', leaks=False, controls=True, rules=True, quality=True
 TIME_VARIANTS = [
     dict(VARIANT, name='times-noon', times=dict(start_clocktime=12 * 3600 + 1800 + 15, report_start=1800, pattern_start=5400 + 30, quality_timestep=90, rule_timestep=75)),
     dict(VARIANT, name='times-midnight', times=dict(start_clocktime=15 * 60, duration=100 * 3600 + 59, hydraulic_timestep=900, report_timestep=2700, pattern_timestep=1800, pattern_start=0)),
+    dict(VARIANT, name='clock-noon-midnight', clock_thresholds=(12 * 3600 + 45 * 60, 15 * 60)),
+    dict(VARIANT, name='clock-midnight-noon', clock_thresholds=(0, 12 * 3600)),
     dict(VARIANT, name='times-pm', times=dict(start_clocktime=23 * 3600 + 59 * 60 + 59, duration=0, statistic='AVERAGED')),
 ]
 _TOKEN = re.compile(r'987654321\d{8}')
